@@ -119,6 +119,7 @@ class BodyGen:
         self.preds = callable_preds      # list of (name, arity)
         self.vars = variables
         self.rich = rich
+        self.lookalikes = False
 
     def arg(self):
         rng = self.rng
@@ -131,8 +132,14 @@ class BodyGen:
             return rng.choice('abc')
         if k < 0.88:
             return str(rng.choice((1, 2, 3)))
-        if k < 0.94:
+        if k < 0.93:
             return 'f(%s)' % rng.choice(self.vars)
+        if self.lookalikes and k < 0.97:
+            # compound terms whose printed forms collide: a quoted atom spelled like a variable, atoms spelled
+            # like the compiler's internal names for anonymous variables
+            v = rng.choice(self.vars)
+            return rng.choice(["pair('%s',%s)" % (v, rng.choice(self.vars)), 'pair(%s,%s)' % (v, rng.choice(self.vars)),
+                               'pair(x1,_)', 'pair(_,x2)', "[x1,'%s']" % v, '[_,%s]' % v])
         return '[%s|%s]' % (rng.choice(self.vars + ['a']), rng.choice(self.vars))
 
     def call(self):
@@ -234,7 +241,7 @@ def gen_world(rng, rich=True, natives=True, max_depth=3):
     if natives:
         for n, a, rows in facts:
             if a >= 1 and rng.random() < 0.35:
-                native.append([n, a, rng.choice(['inferred', 'explicit', 'variadic']), rng.random() < 0.5])
+                native.append([n, a, rng.choice(['inferred', 'explicit', 'variadic', 'decorated']), rng.random() < 0.5])
     dynamic = []
     for n, a, rows in facts:
         if rng.random() < 0.2:
@@ -306,6 +313,16 @@ def make_native(yp, unify, rows, arity, style, yield_value, ctl):
     if style == 'variadic':
         return impl, -1
     wrappers = {0: lambda: impl(), 1: lambda a: impl(a), 2: lambda a, b: impl(a, b), 3: lambda a, b, c: impl(a, b, c)}
+    if style == 'decorated':
+        # an ordinary functools.wraps decorator around the predicate; its arity is inferred through __wrapped__
+        import functools
+
+        def traced(f):
+            @functools.wraps(f)
+            def wrapper(*a, **kw):
+                yield from f(*a, **kw)
+            return wrapper
+        return traced(wrappers[arity]), None
     return wrappers[arity], (None if style == 'inferred' else arity)
 
 
@@ -320,6 +337,7 @@ def gen_compile_program(rng):
         nvars = rng.randrange(2, 8)
         vs = rng.sample(['X', 'Y', 'Z', 'W', 'L', 'Acc', 'Head', 'Tail', 'N1', 'Result', 'A', 'B', '_G', 'Xs'], nvars)
         bg = BodyGen(rng, preds, vs, rich=True)
+        bg.lookalikes = True
         hargs = []
         for _ in range(ar):
             k = rng.random()
@@ -361,3 +379,29 @@ def prewarm_compiler(n=60):
         except Exception:
             pass
     _PREWARMED = True
+
+
+def unquoted_twin(text):
+    """a different program that *prints* like `text` in places: quoted atoms spelled like variables become
+    variables (returns None if there is nothing to unquote)"""
+    import re
+    twin = re.sub(r"'([A-Z_][A-Za-z0-9_]*)'", r"\1", text)
+    return twin if twin != text else None
+
+
+def failing_variant(rng, text):
+    """a program that makes the compiler raise while it is in the middle of a clause that uses the variable
+    names of `text` (kinds: goal that is a bare variable -> CompilerError; body ending in `, fail` -> crash in the
+    code generator; the unimplemented name/arity term -> crash while the clause is being translated)"""
+    first = text.split('\n')[0]
+    if ' :- ' not in first:
+        return None
+    head, body = first[:-1].split(' :- ', 1)
+    kind = rng.choice(('bare-variable-goal', 'comma-fail', 'name-arity-term'))
+    if kind == 'bare-variable-goal':
+        import re
+        m = re.search(r'\b[A-Z][A-Za-z0-9_]*\b', head + ' ' + body)
+        return '%s :- %s, %s.\n' % (head, body, m.group(0) if m else 'X')
+    if kind == 'comma-fail':
+        return '%s :- %s, fail.\n' % (head, body)
+    return '%s :- %s, exported(leg/2).\n' % (head, body)
